@@ -31,13 +31,13 @@ func guardViolation(tree interface{}) string {
 	if g := walkGuard(tree, false); g != "" {
 		return g
 	}
-	if !xpathsPlain(tree, false) {
+	if on("xpath_plain") && !xpathsPlain(tree, false) {
 		return "xpath_plain"
 	}
-	if groupCost(tree) > 50000 {
+	if on("groups_small") && groupCost(tree) > 50000 {
 		return "groups_small"
 	}
-	if expansionSize(tree) > 50000 {
+	if on("tpl_small") && expansionSize(tree) > 50000 {
 		return "tpl_small"
 	}
 	return ""
@@ -55,11 +55,11 @@ func plainInt(n json.Number) bool {
 func walkGuard(v interface{}, inXD bool) string {
 	switch x := v.(type) {
 	case json.Number:
-		if !plainInt(x) {
+		if !plainInt(x) && on("int_plain") {
 			return "int_plain"
 		}
 	case nil:
-		if inXD {
+		if inXD && on("xd_no_null") {
 			return "xd_no_null"
 		}
 	case []interface{}:
